@@ -107,8 +107,11 @@ pub fn catch<R>(f: impl FnOnce() -> R + std::panic::UnwindSafe) -> Result<R, Str
     }
 }
 
+pub static PANIC_COUNT: std::sync::atomic::AtomicUsize = std::sync::atomic::AtomicUsize::new(0);
+
 pub fn silence_panics() {
     std::panic::set_hook(Box::new(|info| {
+        PANIC_COUNT.fetch_add(1, std::sync::atomic::Ordering::SeqCst);
         // keep one line on stderr for diagnosis, prefixed so that drivers can filter it
         let loc = info
             .location()
